@@ -88,6 +88,36 @@ func decodeFcall(r *rep.Report, codec p9p.Codec, bs []byte, label string) {
 	r.Case(sx.L(sx.Sym("alloc"), sx.B(bs), sx.U(used)), sx.Sym("ok"), "alloc", nt)
 }
 
+// plainReader hides bytes.Reader's Len(): DecodeDir cannot tell how much input is left.
+type plainReader struct{ r *bytes.Reader }
+
+func (p plainReader) Read(b []byte) (int, error) { return p.r.Read(b) }
+
+func decodeDirStream(r *rep.Report, codec p9p.Codec, bs []byte, label string) {
+	c := sx.L(sx.Sym("decdir-stream"), sx.B(bs))
+	var d p9p.Dir
+	var err error
+	br := bytes.NewReader(bs)
+	panicked := func() (p bool) {
+		defer func() {
+			if recover() != nil {
+				p = true
+			}
+		}()
+		err = p9p.DecodeDir(codec, plainReader{br}, &d)
+		return false
+	}()
+	switch {
+	case panicked:
+		r.Case(c, sx.L(sx.Sym("panic")), label+":panic", true)
+		r.Fail("encoding.DecodeDir.panic", fmt.Sprintf("DecodeDir panicked on % x… (%d bytes, %s, reader without Len)", bs[:minInt(len(bs), 8)], len(bs), label), c, nil)
+	case err != nil:
+		r.Case(c, errClass(err), label+":err", true)
+	default:
+		r.Case(c, sx.L(sx.Sym("ok"), sx.List(wiregen.DirFields(d)), sx.I(int64(br.Len()))), label+":ok", true)
+	}
+}
+
 func decodeDir(r *rep.Report, codec p9p.Codec, bs []byte, label string) {
 	c := sx.L(sx.Sym("decdir"), sx.B(bs))
 	var d p9p.Dir
@@ -132,7 +162,16 @@ func decodeDir(r *rep.Report, codec p9p.Codec, bs []byte, label string) {
 	r.Case(sx.L(sx.Sym("allocdir"), sx.B(bs), sx.U(used)), sx.Sym("ok"), "allocdir", nt)
 }
 
-var claims16 = []uint16{0, 1, 2, 0x7fff, 0x8000, 0xfffd, 0xfffe, 0xffff}
+var claims16 = func() []uint16 {
+	v := []uint16{0, 1, 2, 0x7fff, 0x8000, 0x8001, 0xfffd, 0xfffe, 0xffff}
+	for j := 1; j <= 12; j++ { // counts n with 13*n just past a multiple of 2^16 (a bound computed in 16 bits wraps to a tiny value)
+		v = append(v, uint16((65536*j+12)/13))
+	}
+	for j := 1; j <= 3; j++ {
+		v = append(v, uint16((65536*j+31)/32), uint16((65536*j+15)/16))
+	}
+	return v
+}()
 var claims32 = []uint32{0, 1, 0xffff, 0x10000, 1 << 20, 1 << 24, 0x7fffffff, 0x80000000, 0xfffffffe, 0xffffffff}
 
 func main() {
@@ -230,6 +269,22 @@ func main() {
 	for _, v := range claims16 {
 		decodeDir(r, codec, []byte{byte(v), byte(v >> 8)}, "dir-claim16")
 		decodeDir(r, codec, append([]byte{byte(v), byte(v >> 8)}, rng.Bytes(50)...), "dir-claim16")
+		decodeDirStream(r, codec, []byte{byte(v), byte(v >> 8)}, "dirstream-claim16")
+		decodeDirStream(r, codec, append([]byte{byte(v), byte(v >> 8)}, rng.Bytes(50)...), "dirstream-claim16")
+	}
+	// size fields at the top of the 16-bit range WITH that many bytes behind them (size arithmetic must not wrap)
+	for _, v := range []int{0xfffd, 0xfffe, 0xffff} {
+		d := wiregen.GenDir(rng)
+		rec := wiregen.RefStat(d)[2:]
+		full := append([]byte{byte(v), byte(v >> 8)}, rec...)
+		full = append(full, make([]byte, v-len(rec)+rng.Intn(3))...)
+		decodeDir(r, codec, full, "dir-maxsize")
+		decodeDirStream(r, codec, full, "dirstream-maxsize")
+	}
+	for k := 0; k < r.N(20, 200); k++ {
+		bs := wiregen.RefStat(wiregen.GenDir(rng))
+		decodeDirStream(r, codec, bs, "dirstream-valid")
+		decodeDirStream(r, codec, bs[:rng.Intn(len(bs)+1)], "dirstream-trunc")
 	}
 	for i := 0; i < r.N(500, 10000); i++ {
 		decodeDir(r, codec, rng.Bytes(rng.Range(0, 80)), "dir-random")
